@@ -15,6 +15,10 @@ from .props_a import ALL_VARIANTS, RunCase, floats, random_run
 
 # ------------------------------------------------------------------------------ file rendering
 
+BIG_LABELS = [2 ** 53, 2 ** 53 + 1, 2 ** 53 + 2, 2 ** 53 + 3, 1234567890123456789, 1234567890123456790,
+              2 ** 63 - 1, 2 ** 63, 2 ** 63 + 1, 2 ** 64 - 2, 2 ** 64 - 1, 7]
+
+
 def render_adjacency(rng, recs, style=None):
     """a well-formed adjacency file in a random layout allowed by the grammar"""
     style = style or {}
@@ -143,6 +147,9 @@ class C13(Check):
             K = rng.choice([2, 2, 3, 4])
             N = rng.randint(2, 6)
             labels = rng.sample([0, 1, 2, 3, 5, 8, 13, 21, 100, 4096, 123456789, 2 ** 31, 2 ** 32 + 3, 3000000000, 10 ** 15], N)
+            if rng.random() < 0.2:
+                # full 64-bit ids (hashes, database keys): neighbours that differ below the precision of a double
+                labels = rng.sample(BIG_LABELS, N)
             recs, L = gen.records(rng, N=N, wt="u", labels=labels)
             opts = {"k": K}
             if rng.random() < 0.6:
